@@ -534,7 +534,7 @@ func parseStrat(s string) (graph.TraversalStrategy, bool) {
 
 // ---------------------------------------------------------------- Exec
 
-const opTimeout = 5 * time.Second
+const opTimeout = 30 * time.Second
 
 // hangs counts ops that did not return; their goroutines keep spinning (and, when the loop that does not end
 // pushes on a stack, allocating), so after the first one no further case is executed (the hang is already
